@@ -13,7 +13,7 @@ from __future__ import annotations
 from functools import lru_cache
 import itertools as itt
 
-from ..ctf import events2, base_assignments, event_from_json, event_json, event_value_env, events, ground_items, to_event
+from ..ctf import events2, events3w, base_assignments, event_from_json, event_json, event_value_env, events, ground_items, to_event
 from ..fscm import FSCM, FWorld
 from ..graphs import G, enum_L, enum_O
 from ..runner import Res, fkey_of
@@ -33,9 +33,10 @@ def _universe(tier):
 def event_space(g: G, tier):
     n = len(g.nodes)
     if n <= 3:
+        three = events3w(g.nodes) if n == 3 else ()
         if tier == "quick":
-            return events2(g.nodes)
-        return itt.chain(events(g.nodes, 2, 3, 2), (e for e in events2(g.nodes) if len(e) == 3))
+            return itt.chain(events2(g.nodes), three)
+        return itt.chain(events(g.nodes, 2, 3, 2), (e for e in events2(g.nodes) if len(e) == 3), three)
     return events(g.nodes, 2, 2, 1)
 
 
